@@ -676,7 +676,7 @@ def get_blas_funcs(names, arrays=(), dtype=None, **k):
 
 # --------------------------------------------------------------- install
 NOPROXY = ('odl.discr.partition', 'odl.discr.grid', 'odl.set.domain', 'odl.util.normalize',
-           'odl.util.utility', 'odl.util.testutils', 'odl.util.graphics')
+           'odl.util.testutils', 'odl.util.graphics')
 PROXY = NPProxy(np)
 _installed = {}
 
@@ -708,7 +708,6 @@ def install(extra=(), exclude=()):
             d['numpy'] = PROXY
     _patch_element_dtype()
     _patch_formatting()
-    _patch_writable_array()
     _patch_special()
 
 
